@@ -225,6 +225,12 @@ CMD_TEXTS = [
     ("empty-file", ""),
     ("header-only", "# just a header\n"),
 ]
+# valid pages whose ZID-less items have unusual one- or two-word bodies: the compiler alone
+# is not the whole of indexing (ZID assignment, SQL conversion and write-back run as well)
+for _pre in ("- ", "o ", "o P1 ", "x "):
+    for _w in ("2024-03-13", "240313", "P1", "o", "x", "1230", "[[x]]", "#t", "k::v", "[k:: v w]",
+               "2024-03-13 x", "P1 P2", "2024-03-13\n  * bullet", "a\n  2024-03-13"):
+        CMD_TEXTS.append((f"unusual-item:{_pre}{_w}".replace("\n", "\\n"), f"# h\n\n{_pre}{_w}\n"))
 
 
 def _run_cmd_case(ctx, case) -> F.Outcome:
@@ -452,6 +458,8 @@ def _cases(ctx):
     n_texts = len(flat)
     for name, text in CMD_TEXTS:
         for mode in ("create", "create-f", "reindex"):
+            if name.startswith("unusual-item:") and mode == "create-f":
+                continue
             flat.append(["cmd", name, text, mode])
     for wl_path, new_path in (("archive/journal.zo", "journal.zo"), ("journal.zo", "archive/journal.zo"),
                               ("p10.zo", "p1.zo"), ("p1.zo", "p10.zo"), ("ab.zo", "b.zo"), ("a/b.zo", "a/b.zo.zo")):
@@ -461,7 +469,7 @@ def _cases(ctx):
         flat.append(["cmd", "whitelist-lifecycle", mode])
     return flat, {"deviation0": len(SEEDS), "deviation1": n_dev1 - len(SEEDS), "deviation2": n_dev2,
                     "token_strings_and_digit_words": n_texts - n_dev1 - n_dev2,
-                    "command_level": len(CMD_TEXTS) * 3 + 12, "sigma": len(sigma), "seeds_edited": len(seeds)}
+                    "command_level": sum(2 if n.startswith("unusual-item:") else 3 for n, _ in CMD_TEXTS) + 14, "sigma": len(sigma), "seeds_edited": len(seeds)}
 
 
 def run(ctx: F.Ctx):
